@@ -27,10 +27,11 @@
 (***************************************************************************)
 EXTENDS Privacy, Json
 
-CONSTANTS RuleSetIds,  \* subset of DOMAIN RuleSets explored
+CONSTANTS KindlessStart, \* subset of BOOLEAN: may F start without a kind (Documentable.kind is None until the builder sets it)
+          RuleSetIds,  \* subset of DOMAIN RuleSets explored
           MaxMoves,    \* bound on the number of reparent() calls in a behaviour
           MaxDepth,    \* bound on the length of a behaviour
-          CacheKey     \* "fullName" (what the code does) | "object" | "objectPop" (negative controls)
+          CacheKey     \* "fullName" (what the code does) | "object" | "objectPop" | "kindCached" (negative controls)
 
 R(lv, pat) == [lv |-> lv, pat |-> pat]
 RuleSets == <<
@@ -55,10 +56,12 @@ VARIABLES rid,    \* which rule list
           loc,    \* loc[o] = [mod, nm] for o in Movable
           cache,  \* System._privacyClassCache : key -> level
           moves,  \* number of reparent() calls so far
+          kl0,    \* did F start without a kind (constant of the behaviour)
+          kindless, \* F has no kind yet: privacyClass answers HIDDEN and does NOT remember it (model.py "kind should not be None")
           steps,  \* number of calls so far (bounded; part of the VIEW so that the explored graph is the same in every run)
           hist    \* the behaviour so far (not in the VIEW)
-vars == <<rid, loc, cache, moves, steps, hist>>
-View == <<rid, loc, cache, moves, steps>>
+vars == <<rid, loc, cache, moves, kl0, kindless, steps, hist>>
+View == <<rid, loc, cache, moves, kl0, kindless, steps>>
 
 Rules == RuleSets[rid]
 
@@ -74,8 +77,12 @@ NameChain(o) == [i \in 1..Len(ObjChain(o)) |-> FullName(ObjChain(o)[i])]
 Key(o) == IF CacheKey = "fullName" THEN FullName(o) ELSE <<o>>
 
 \* System.privacyClass(ob) (model.py 1123-1155) on cache c: value returned and cache afterwards
-QueryVal(c, o) == IF Key(o) \in DOMAIN c THEN c[Key(o)] ELSE ImplPrivacy(FullName(o), Rules)
-Store(c, o, v) == IF Key(o) \in DOMAIN c THEN c ELSE c @@ (Key(o) :> v)
+\* the cache is looked up first; an object without a kind is HIDDEN, and that answer is not stored
+\* (control "kindCached": it is stored under the full name, and outlives the object getting its kind)
+Kindless(o) == o = "F" /\ kindless
+QueryVal(c, o) == IF Key(o) \in DOMAIN c THEN c[Key(o)]
+                  ELSE IF Kindless(o) THEN "HIDDEN" ELSE ImplPrivacy(FullName(o), Rules)
+Store(c, o, v) == IF Key(o) \in DOMAIN c \/ (Kindless(o) /\ CacheKey # "kindCached") THEN c ELSE c @@ (Key(o) :> v)
 
 \* Documentable.isVisible (model.py 359-369): own privacy, then the parent's isVisible unless already hidden
 RECURSIVE VisWalk(_, _, _)
@@ -89,6 +96,7 @@ Init == /\ rid \in RuleSetIds
         /\ loc = [o \in Movable |-> IF o = "K" THEN [mod |-> "a", nm |-> <<"c">>] ELSE [mod |-> "b", nm |-> <<"c">>]]
         /\ cache = [x \in {} |-> "none"]
         /\ moves = 0
+        /\ kl0 \in KindlessStart /\ kindless = kl0
         /\ steps = 0
         /\ hist = <<>>
 
@@ -98,17 +106,17 @@ Step(op, o, got, exp, mod, nm) ==
 Query(o) ==
   LET v == QueryVal(cache, o) IN
     /\ cache' = Store(cache, o, v)
-    /\ hist' = Append(hist, Step("query", o, v, PrivacyOf(FullName(o), Rules), "-", <<>>))
+    /\ hist' = Append(hist, Step("query", o, v, IF Kindless(o) THEN "-" ELSE PrivacyOf(FullName(o), Rules), "-", <<>>))
     /\ steps' = steps + 1
-    /\ UNCHANGED <<rid, loc, moves>>
+    /\ UNCHANGED <<rid, loc, moves, kl0, kindless>>
 
 QueryVisible(o) ==
   LET w == VisWalk(cache, ObjChain(o), 1) IN
     /\ cache' = w.c
     /\ hist' = Append(hist, Step("visible", o, IF w.v THEN "yes" ELSE "no",
-                                 IF VisibleRef(NameChain(o), Rules) THEN "yes" ELSE "no", "-", <<>>))
+                                 IF Kindless(o) THEN "-" ELSE IF VisibleRef(NameChain(o), Rules) THEN "yes" ELSE "no", "-", <<>>))
     /\ steps' = steps + 1
-    /\ UNCHANGED <<rid, loc, moves>>
+    /\ UNCHANGED <<rid, loc, moves, kl0, kindless>>
 
 Reparent(o, m, n) ==
   /\ moves < MaxMoves
@@ -121,25 +129,34 @@ Reparent(o, m, n) ==
   /\ cache' = IF CacheKey = "objectPop"                                 \* reparent() does not touch the cache
                THEN [k \in DOMAIN cache \ {<<o>>} |-> cache[k]]            \* (control: forgets the moved object only)
                ELSE cache
-  /\ UNCHANGED rid
+  /\ UNCHANGED <<rid, kl0, kindless>>
+
+\* the builder gives F its kind (astbuilder sets .kind after creating the object)
+GiveKind ==
+  /\ kindless /\ kindless' = FALSE
+  /\ hist' = Append(hist, Step("givekind", "F", "-", "-", "-", <<>>))
+  /\ steps' = steps + 1
+  /\ UNCHANGED <<rid, loc, cache, moves, kl0>>
 
 Next == \/ \E o \in Objs : Query(o)
         \/ \E o \in Objs \ Mods : QueryVisible(o)
         \/ \E o \in Movable, m \in Mods, n \in LocalNames : Reparent(o, m, n)
+        \/ GiveKind
 Spec == Init /\ [][Next]_vars
 
 Bound == steps <= MaxDepth
 
 ---------------------------------------------------------------------------
 \* the property, on states: what a query WOULD answer now is what the manual says for the current name
-ObservedRight == \A o \in Objs : QueryVal(cache, o) = PrivacyOf(FullName(o), Rules)
-VisibleRight  == \A o \in Objs : VisWalk(cache, ObjChain(o), 1).v = VisibleRef(NameChain(o), Rules)
+\* (an object that has no kind yet is outside the statement; once it has one, nothing of that time may remain)
+ObservedRight == \A o \in Objs : ~Kindless(o) => QueryVal(cache, o) = PrivacyOf(FullName(o), Rules)
+VisibleRight  == \A o \in Objs : ~Kindless(o) => VisWalk(cache, ObjChain(o), 1).v = VisibleRef(NameChain(o), Rules)
 CacheSound    == CacheKey = "fullName" => \A k \in DOMAIN cache : cache[k] = PrivacyOf(k, Rules)
 
 ---------------------------------------------------------------------------
 \* export: one record per edge; the reference value of every key the cache can hold, once per rule list
 CacheList(c) == {[k |-> k, v |-> c[k]] : k \in DOMAIN c}
-EmitEdge == PrintT(ToJson([rid |-> rid, rules |-> Rules, h |-> hist', cache |-> CacheList(cache')]))
+EmitEdge == PrintT(ToJson([rid |-> rid, rules |-> Rules, kl0 |-> kl0, h |-> hist', cache |-> CacheList(cache')]))
 AllKeys == {<<m>> : m \in Mods} \cup {<<m, ".">> \o n : m \in Mods, n \in LocalNames}
              \cup {<<m, ".">> \o n \o <<".", "_", "m">> : m \in Mods, n \in LocalNames}
 ASSUME PrintT(ToJson([refs |-> [r \in 1..Len(RuleSets) |->
